@@ -5,6 +5,7 @@ import (
 	"context"
 	"fmt"
 	"math/rand"
+	"runtime"
 	"strings"
 	"sync"
 	"sync/atomic"
@@ -348,7 +349,94 @@ func plan(tier string, seed int64) []driver.Case {
 		cases = append(cases, driver.Case{ID: fmt.Sprintf("conc/%d/%s", i, cfg), Race: tier == "thorough" && i%2 == 0,
 			P: map[string]string{"kind": "conc", "cfg": cfg.key(), "seed": fmt.Sprint(rng.Int63()), "clients": fmt.Sprint(2 + rng.Intn(3)), "yield": fmt.Sprint(rng.Intn(3)), "concurrent": "1"}})
 	}
+	// several goroutines call Connect on a connectable that is not connected - and nobody
+	// disconnects meanwhile: exactly one upstream subscription may result
+	for _, cfg := range cs {
+		if !strings.HasPrefix(cfg.Form, "connectable") {
+			continue
+		}
+		for _, k := range []int{2, 4, 8} {
+			for _, slow := range []string{"0", "1"} {
+				cases = append(cases, driver.Case{ID: fmt.Sprintf("connrace/%s/k%d/slow%s", cfg, k, slow),
+					P: map[string]string{"kind": "connrace", "cfg": cfg.key(), "k": fmt.Sprint(k), "slow": slow, "rounds": "20"}})
+			}
+		}
+	}
 	return cases
+}
+
+// runConnRace: k goroutines call Connect at once, nobody disconnects until all have returned.
+func runConnRace(c driver.Case) driver.Result {
+	cfg := parseConfig(c.Get("cfg"))
+	k, rounds, slow := c.Int("k"), c.Int("rounds"), c.Get("slow") == "1"
+	res := driver.Result{Verdict: driver.Held}
+	for round := 0; round < rounds; round++ {
+		s := newSUT(cfg)
+		count := s.source.OnSubscribe
+		s.source.OnSubscribe = func(idx int, liveOthers int64, ctx context.Context) {
+			count(idx, liveOthers, ctx)
+			if slow {
+				time.Sleep(300 * time.Microsecond) // a source that takes a moment to set itself up
+			}
+		}
+		r := rec.New("sub")
+		sub := s.obs.Subscribe(rec.Raw[int](r))
+		handles := make([]ro.Subscription, k)
+		var gate atomic.Int64
+		var wg sync.WaitGroup
+		for g := 0; g < k; g++ {
+			g := g
+			wg.Add(1)
+			go func() {
+				defer wg.Done()
+				defer func() { recover() }()
+				gate.Add(1)
+				for gate.Load() < int64(k) {
+					runtime.Gosched()
+				}
+				handles[g] = s.conn.Connect()
+			}()
+		}
+		st, dump, _ := quiesce.Call(wg.Wait, 15*time.Second)
+		where := fmt.Sprintf("%s: %d goroutines call Connect at once (round %d)", cfg, k, round)
+		if st == quiesce.Hung {
+			res.Verdict, res.Key, res.Dirty, res.Witness = driver.Violated, "C11/"+canonForm(cfg.Form)+"/hang/"+quiesce.BlockedSite(dump), true, dump
+			res.Msg = where + ": the calls never return; all goroutines blocked"
+			return res
+		}
+		if st != quiesce.Returned {
+			return driver.Result{Verdict: driver.Inconclusive, Key: "connect-did-not-return", Dirty: true}
+		}
+		res.Events += int64(k)
+		if n := s.source.Subscribed.Load(); n != 1 || s.doubled.Load() > 0 {
+			res.Verdict, res.Key = driver.Violated, "C11/"+canonForm(cfg.Form)+"/concurrent-connects-subscribe-the-source-more-than-once"
+			res.Msg = fmt.Sprintf("%s: the source was subscribed %d times, %d of them while another subscription was live (nobody disconnected): %s", where, n, s.doubled.Load(), s.source.Summary())
+			return res
+		}
+		// one value reaches the subscriber once
+		s.source.Next(7)
+		if got := r.TraceString(); !strings.HasSuffix(got, "7") || strings.Count(got, "7") != 1 {
+			res.Verdict, res.Key = driver.Violated, "C11/"+canonForm(cfg.Form)+"/value-not-delivered-exactly-once-after-concurrent-connects"
+			res.Msg = fmt.Sprintf("%s: after Next(7) the subscriber has [%s]", where, got)
+			return res
+		}
+		// disconnecting through the handles stops delivery and releases the source
+		for _, h := range handles {
+			if h != nil {
+				h.Unsubscribe()
+			}
+		}
+		if s.source.Live.Load() != 0 {
+			res.Verdict, res.Key = driver.Violated, "C11/"+canonForm(cfg.Form)+"/source-still-subscribed-after-disconnecting-every-handle"
+			res.Msg = fmt.Sprintf("%s: every handle returned by Connect was unsubscribed, the source is still subscribed: %s", where, s.source.Summary())
+			return res
+		}
+		sub.Unsubscribe()
+	}
+	res.Nontrivial = true
+	res.Sig = fmt.Sprintf("connrace/%s/%d/%v", cfg, k, slow)
+	res.Sample = map[string]any{"config": cfg.String(), "concurrent_connect_callers": k, "rounds": rounds, "slow_source_setup": slow}
+	return res
 }
 
 func runSeq(c driver.Case) driver.Result {
@@ -588,18 +676,21 @@ func runConc(c driver.Case) driver.Result {
 
 func runCase(c driver.Case) driver.Result {
 	rec.ResetHooks()
-	if c.Get("kind") == "conc" {
+	switch c.Get("kind") {
+	case "conc":
 		return runConc(c)
+	case "connrace":
+		return runConnRace(c)
 	}
 	return runSeq(c)
 }
 
 func main() {
 	driver.Main(driver.Property{
-		ID:    "C11",
-		Level: "exploration",
-		Rule:  "sequential: Share/ShareWithConfig (8 reset-flag combinations × connectors publish, behavior, replay 1, replay 2), Share, ShareReplay, ShareReplayWithConfig, Connectable/ConnectableWithConfig (ResetOnDisconnect on/off × connectors): EVERY sequence over {Subscribe (≤3 subscribers), Unsubscribe i, source Next/Error/Complete, Connect, disconnect} up to the bound on a fresh instance over an instrumented puppet source; after each event the per-subscriber traces, the number of upstream subscriptions and the upstream liveness are compared with the reference model, and the source asserts inside its subscribe function that no other subscription to it is live. Concurrent: 2-4 clients subscribing/unsubscribing/connecting while an emitter goroutine feeds the live upstream subscription, yields at the Share/connectable hook points; invariants: ≤1 live upstream subscription, grammar, no overlap, shared order, upstream released at reference count zero. Non-trivial: sequences executed / values delivered.",
-		Assume: []string{"reference model written from the ShareConfig/ConnectableConfig documentation and the property statement (DESIGN Appendix B)"},
+		ID:        "C11",
+		Level:     "exploration",
+		Rule:      "sequential: Share/ShareWithConfig (8 reset-flag combinations × connectors publish, behavior, replay 1, replay 2), Share, ShareReplay, ShareReplayWithConfig, Connectable/ConnectableWithConfig (ResetOnDisconnect on/off × connectors): EVERY sequence over {Subscribe (≤3 subscribers), Unsubscribe i, source Next/Error/Complete, Connect, disconnect} up to the bound on a fresh instance over an instrumented puppet source; after each event the per-subscriber traces, the number of upstream subscriptions and the upstream liveness are compared with the reference model, and the source asserts inside its subscribe function that no other subscription to it is live. Concurrent: 2-4 clients subscribing/unsubscribing/connecting while an emitter goroutine feeds the live upstream subscription, yields at the Share/connectable hook points; invariants: ≤1 live upstream subscription, grammar, no overlap, shared order, upstream released at reference count zero. Non-trivial: sequences executed / values delivered.",
+		Assume:    []string{"reference model written from the ShareConfig/ConnectableConfig documentation and the property statement (DESIGN Appendix B)"},
 		Plan:      plan,
 		Run:       runCase,
 		CaseWatch: 120 * time.Second,
